@@ -683,15 +683,82 @@ theorem time_keyword_table :
       · split at h <;> cases h
   · intro h; simp [h]
 
-/-- The argument-count windows of the six helpers (`<ARGN>` outside, checked first), and inside the
+/-- The key-words and guards the model relies on are the ones in the source now (regenerated on every
+run): the `now`/`live`/`delta` cases of `kfTimeParse`, the `auto` / `""`,`cache` cases of
+`smartDateParseWrapper`, the `""`,`UTC` / `LOCAL` cases of `parseTimezoneLocation`, and the bodies of
+the four attribute functions (source text; `yearweek` pairs the ISO year with the ISO week). -/
+theorem gen_guards_match :
+    (∀ w, (timeKeyword w).isSome = true ↔ toLower w ∈ Gen.C18.timeKeywords.flatten.map asc)
+    ∧ (∀ tbl f, (modeOf tbl f = .auto ↔ toLower f ∈ (Gen.C18.parseModes.getD 0 []).map asc)
+        ∧ (modeOf tbl f = .cache ↔ toLower f ∈ (Gen.C18.parseModes.getD 1 []).map asc))
+    ∧ (∀ tzf ok, ((parseTimezoneLocation tzf ok).1 = .utc ∧ (parseTimezoneLocation tzf ok).2 = true
+          ↔ toUpper tzf ∈ (Gen.C18.zoneKeywords.getD 0 []).map asc)
+        ∧ ((parseTimezoneLocation tzf ok).1 = .local ↔ toUpper tzf ∈ (Gen.C18.zoneKeywords.getD 1 []).map asc))
+    ∧ Gen.C18.attrBodies = [
+        ("QUARTER", "func(ttime.Time)string{month:=int(t.Month())returnstrconv.Itoa((month-1)/3+1)}"),
+        ("WEEK", "func(ttime.Time)string{_,week:=t.ISOWeek()returnstrconv.Itoa(week)}"),
+        ("WEEKDAY", "func(ttime.Time)string{returnstrconv.Itoa(int(t.Weekday()))}"),
+        ("YEARWEEK", "func(ttime.Time)string{year,week:=t.ISOWeek()returnstrconv.Itoa(year)+\"-\"+strconv.Itoa(week)}")] := by
+  have e0 : asc "" = ([] : Bytes) := rfl
+  have n1 : asc "now" ≠ asc "live" := by decide
+  have n2 : asc "now" ≠ asc "delta" := by decide
+  have n3 : asc "live" ≠ asc "delta" := by decide
+  have n4 : asc "auto" ≠ ([] : Bytes) := by decide
+  have n5 : asc "auto" ≠ asc "cache" := by decide
+  have n6 : asc "UTC" ≠ ([] : Bytes) := by decide
+  have n7 : asc "LOCAL" ≠ ([] : Bytes) := by decide
+  have n8 : asc "LOCAL" ≠ asc "UTC" := by decide
+  refine ⟨fun w => ?_, fun tbl f => ⟨?_, ?_⟩, fun tzf ok => ⟨?_, ?_⟩, rfl⟩
+  · simp only [timeKeyword, Gen.C18.timeKeywords, List.flatten, List.append_nil, List.map, List.cons_append, List.nil_append,
+      List.mem_cons, List.not_mem_nil, or_false]
+    by_cases h1 : toLower w = asc "now"
+    · simp [h1]
+    · by_cases h2 : toLower w = asc "live"
+      · simp [h2, n1.symm]
+      · by_cases h3 : toLower w = asc "delta"
+        · simp [h3, n2.symm, n3.symm]
+        · simp [h1, h2, h3]
+  · simp only [modeOf, Gen.C18.parseModes, List.getD_cons_zero, List.map, List.mem_cons, List.not_mem_nil, or_false]
+    by_cases h1 : toLower f = asc "auto"
+    · simp [h1]
+    · simp only [h1, if_false, iff_false]
+      split <;> simp
+  · simp only [modeOf, Gen.C18.parseModes, List.getD_cons_succ, List.getD_cons_zero, List.map, List.mem_cons, List.not_mem_nil, or_false, e0]
+    by_cases h1 : toLower f = asc "auto"
+    · simp [h1, n4, n5]
+    · simp only [h1, if_false]
+      by_cases h2 : (toLower f = [] ∨ toLower f = asc "cache")
+      · simp [h2]
+      · simp [h2]
+  · simp only [parseTimezoneLocation, Gen.C18.zoneKeywords, List.getD_cons_zero, List.map, List.mem_cons, List.not_mem_nil, or_false, e0]
+    by_cases h1 : (toUpper tzf = [] ∨ toUpper tzf = asc "UTC")
+    · simp [h1]
+    · simp only [h1, if_false, iff_false]
+      split
+      · simp
+      · cases ok <;> simp
+  · simp only [parseTimezoneLocation, Gen.C18.zoneKeywords, List.getD_cons_succ, List.getD_cons_zero, List.map, List.mem_cons, List.not_mem_nil, or_false]
+    by_cases h1 : (toUpper tzf = [] ∨ toUpper tzf = asc "UTC")
+    · have : toUpper tzf ≠ asc "LOCAL" := by
+        rcases h1 with h | h
+        · rw [h]; exact n7.symm
+        · rw [h]; exact n8.symm
+      simp [h1, this]
+    · simp only [h1, if_false]
+      by_cases h2 : toUpper tzf = asc "LOCAL"
+      · simp [h2]
+      · cases ok <;> simp [h2]
+
+/-- The argument-count windows of the six helpers as the translator reads them from the guards that
+open `kfTimeParse` … `kfTimeAttr` (`Gen.C18.argRanges`): `<ARGN>` outside, checked first, and inside the
 window with a constant, known second argument and a loadable zone the stage is built. -/
 theorem compile_argcount :
-    ∀ e ∈ [("time", 1, 3), ("timeformat", 1, 3), ("duration", 1, 1), ("durationformat", 1, 1), ("buckettime", 2, 4), ("timeattr", 2, 3)],
+    ∀ e ∈ Gen.C18.argRanges,
       ∀ argc c eo zo, ((argc < e.2.1 ∨ argc > e.2.2) → compileCheck e.1 argc c eo zo = some ("func.argcount", "<ARGN>"))
         ∧ (e.2.1 ≤ argc → argc ≤ e.2.2 → c 1 = true → compileCheck e.1 argc c true true = none) := by
   intro e he argc c eo zo
   obtain ⟨fn, lo, hi⟩ := e
-  simp only [List.mem_cons, List.not_mem_nil, or_false, Prod.mk.injEq] at he
+  simp only [Gen.C18.argRanges, List.mem_cons, List.not_mem_nil, or_false, Prod.mk.injEq] at he
   rcases he with ⟨a, b, d⟩ | ⟨a, b, d⟩ | ⟨a, b, d⟩ | ⟨a, b, d⟩ | ⟨a, b, d⟩ | ⟨a, b, d⟩ <;> subst a <;> subst b <;> subst d <;>
     simp only [compileCheck, String.reduceEq, if_true, if_false, or_false, false_or, or_self] <;> constructor <;> intro h
   all_goals first
